@@ -58,6 +58,14 @@ func c16RawClientConfig(rnd *[handshake.RandomBytesLength]byte, certs []tls.Cert
 	return cfg
 }
 
+// c16Retire: a real listener is NOT closed when a round is over.  pion's udp listener (transport/v2 udp/conn.go, the
+// fork pinned in go.mod) calls connWG.Add(1) in Accept while Close brings the same WaitGroup to zero: a datagram that
+// arrives in the instant of Close (a late close_notify of a dialler) makes the process panic with "sync: WaitGroup is
+// reused before previous Wait has returned" — in a goroutine of the library, which no harness can recover.  That
+// is a defect of the dependency at listener shutdown, outside C16's statement; the listener's socket and its two
+// parked goroutines simply stay until the test process ends.
+func c16Retire(l *Listener) {}
+
 func c16WaitRegistered(l *Listener, rnd [handshake.RandomBytesLength]byte, d time.Duration) bool {
 	deadline := time.Now().Add(d)
 	for time.Now().Before(deadline) {
@@ -85,7 +93,7 @@ func c16ListenerAuth(out *vlib.Out, r *vlib.Rand, rounds int) {
 		out.Count("skip:no-loopback-udp")
 		return
 	}
-	defer l.Close()
+	defer c16Retire(l)
 	addr := l.Addr().(*net.UDPAddr)
 	attempt := func(kind string, a, b int) (delivered bool, clientErr error, note string) {
 		ca, cb := c16CertsOf(a), c16CertsOf(b)
@@ -314,7 +322,7 @@ func c16RealScenarios(out *vlib.Out, r *vlib.Rand, rounds int) {
 		out.Count("skip:no-loopback-udp")
 		return
 	}
-	defer l.Close()
+	defer c16Retire(l)
 	addr := l.Addr().(*net.UDPAddr)
 	type failure struct{ sig, what string }
 	// one attempt; "" = the session was delivered and carried the secret's message both ways
